@@ -859,3 +859,67 @@ def unflag_dict(fn: ast.FunctionDef):
         new.body = rebind(new.body)
         fn = ast.fix_missing_locations(new)
     return fn
+
+
+def counter_while_to_for(fn: ast.FunctionDef):
+    """`c = s; [flag = False;] while <stop-test> and c < N: BODY  (with exactly one top-level `c += 1`, and `flag = T` / a direct test on a body
+    variable)`  ->  `for _ in range(s, N): BODY'; if T: break`.  The stop test is `not flag` (flag set once, at the top level of the body) or
+    `not (T)` with T a comparison of a variable the body assigns (then T is tested at the end of every iteration, which is when the
+    while loop tests it next). Returns a rewritten deep copy (unchanged if the idiom is absent)."""
+    fn = copy.deepcopy(fn)
+    for blk in _blocks(fn):
+        for k, st in enumerate(blk):
+            if not (isinstance(st, ast.While) and isinstance(st.test, ast.BoolOp) and isinstance(st.test.op, ast.And) and len(st.test.values) == 2 and not st.orelse and st.body):
+                continue
+            cnt = bound = stop = None
+            for v in st.test.values:
+                if isinstance(v, ast.Compare) and len(v.ops) == 1 and isinstance(v.ops[0], ast.Lt) and isinstance(v.left, ast.Name) \
+                        and any(isinstance(s2, ast.AugAssign) and isinstance(s2.target, ast.Name) and s2.target.id == v.left.id for s2 in st.body):
+                    cnt, bound = v.left.id, v.comparators[0]
+                elif isinstance(v, ast.UnaryOp) and isinstance(v.op, ast.Not):
+                    stop = v.operand
+            if cnt is None or stop is None:
+                continue
+            incs = [s2 for s2 in st.body if isinstance(s2, ast.AugAssign) and isinstance(s2.target, ast.Name) and s2.target.id == cnt and isinstance(s2.op, ast.Add)
+                    and isinstance(s2.value, ast.Constant) and s2.value.value == 1]
+            others = [n for n in ast.walk(st) if isinstance(n, ast.Name) and n.id == cnt and isinstance(n.ctx, ast.Store)]
+            reads = [n for s2 in st.body if s2 not in incs for n in ast.walk(s2) if isinstance(n, ast.Name) and n.id == cnt]
+            init_c = [s2 for s2 in blk[:k] if isinstance(s2, ast.Assign) and len(s2.targets) == 1 and isinstance(s2.targets[0], ast.Name) and s2.targets[0].id == cnt]
+            if len(incs) != 1 or len(others) != 1 or reads or len(init_c) != 1 or not (isinstance(init_c[0].value, ast.Constant) and isinstance(init_c[0].value.value, int)):
+                continue
+            if any(isinstance(n, ast.Name) and n.id == cnt for s2 in blk[k + 1:] for n in ast.walk(s2)):
+                continue
+            body = [s2 for s2 in st.body if s2 is not incs[0]]
+            drop = [init_c[0]]
+            if isinstance(stop, ast.Name):
+                flag = stop.id
+                sets = [s2 for s2 in body if isinstance(s2, ast.Assign) and len(s2.targets) == 1 and isinstance(s2.targets[0], ast.Name) and s2.targets[0].id == flag]
+                init_f = [s2 for s2 in blk[:k] if isinstance(s2, ast.Assign) and len(s2.targets) == 1 and isinstance(s2.targets[0], ast.Name) and s2.targets[0].id == flag]
+                n_st = sum(1 for n in ast.walk(st) if isinstance(n, ast.Name) and n.id == flag and isinstance(n.ctx, ast.Store))
+                if len(sets) != 1 or n_st != 1 or len(init_f) != 1 or not (isinstance(init_f[0].value, ast.Constant) and init_f[0].value.value is False):
+                    continue
+                if any(isinstance(n, ast.Name) and n.id == flag for s2 in blk[k + 1:] for n in ast.walk(s2)) or any(isinstance(n, ast.Name) and n.id == flag for s2 in body[body.index(sets[0]) + 1:] for n in ast.walk(s2)):
+                    continue
+                t = sets[0].value
+                if isinstance(t, ast.Call) and isinstance(t.func, ast.Name) and t.func.id == "bool" and len(t.args) == 1:
+                    t = t.args[0]
+                pos = body.index(sets[0])
+                # statements after the flag assignment still run in that iteration: the break comes after them
+                body = body[:pos] + body[pos + 1:] + [ast.If(test=t, body=[ast.Break()], orelse=[])]
+                drop.append(init_f[0])
+            elif isinstance(stop, ast.Compare):
+                names = {n.id for n in ast.walk(stop) if isinstance(n, ast.Name)}
+                assigned = {s2.targets[0].id for s2 in ast.walk(st) if isinstance(s2, ast.Assign) and len(s2.targets) == 1 and isinstance(s2.targets[0], ast.Name)}
+                if not (names & assigned):
+                    continue
+                body = body + [ast.If(test=copy.deepcopy(stop), body=[ast.Break()], orelse=[])]
+            else:
+                continue
+            s0 = init_c[0].value.value
+            args = [bound] if s0 == 0 else [ast.Constant(value=s0), bound]
+            new = ast.For(target=ast.Name(id="_", ctx=ast.Store()), iter=ast.Call(func=ast.Name(id="range", ctx=ast.Load()), args=args, keywords=[]), body=body, orelse=[], type_comment=None)
+            ast.copy_location(new, st)
+            blk[k] = new
+            blk[:] = [s2 for s2 in blk if not any(s2 is d for d in drop)]
+            return ast.fix_missing_locations(fn)
+    return fn
